@@ -73,3 +73,14 @@ SPECS = {
  'u32min': {'src': src('u32min'), 'pre': U2, 'never_fails': True, 'post': ['r[0].val() == (if %s < %s { %s } else { %s })' % (a, b, a, b), 'rest_ok(s0, r, 2, 1)']},
  'u32max': {'src': src('u32max'), 'pre': U2, 'never_fails': True, 'post': ['r[0].val() == (if %s > %s { %s } else { %s })' % (a, b, a, b), 'rest_ok(s0, r, 2, 1)']},
 }
+
+# every immediate 0..31 of the shifts and rotations (0 is special-cased by the assembler: NOOP)
+for _k in range(0, 32):
+    _m = 2 ** _k
+    for _nm, _post in (('u32shl', 'r[0].val() == (%s * %d) %% B32()' % (b, _m)),
+                       ('u32shr', 'r[0].val() == %s / %d' % (b, _m)),
+                       ('u32rotl', 'r[0].val() == (%s * %d) %% B32() + (%s * %d) / B32()' % (b, _m, b, _m)),
+                       ('u32rotr', 'r[0].val() == %s / %d + (%s %% %d) * %d' % (b, _m, b, _m, 2 ** 32 // _m))):
+        _key = '%s.%d' % (_nm, _k)
+        if _key not in SPECS:
+            SPECS[_key] = {'src': src(_key), 'pre': U1, 'never_fails': True, 'post': [_post, 'rest_ok(s0, r, 1, 1)']}
